@@ -1,6 +1,6 @@
 (* Properties/C03.v — priorities: the highest-priority writer wins, the latest among equals; metadata is combined. *)
 From AY Require Import Model.Merge Proofs.Prio Proofs.FactsOk Model.Loader Proofs.PrioBelow Spec.UpdateP Proofs.MergeGen Proofs.MergePrio Proofs.PrioPath Proofs.PrioLoad Proofs.PrioClass.
-From AY Require Model.Eval Proofs.EvalPlain.
+From AY Require Model.Eval Proofs.EvalPlain Proofs.PrioLaws.
 
 (* the order of the three priority constants is what the documentation says: !force > untagged > !weak *)
 Theorem C03_constants : (Facts.prio_weak <? Facts.prio_standard)%Z = true /\ (Facts.prio_standard <? Facts.prio_force)%Z = true
@@ -133,6 +133,12 @@ Print Assumptions C03_evaluated_config.
 Theorem C03_no_lists_no_side_condition : forall y0 ys, Forall ynolist (y0 :: ys) -> hcompat (yprio None y0) (map (yprio None) ys).
 Proof. exact hcompat_ynolist. Qed.
 Print Assumptions C03_no_lists_no_side_condition.
+
+(* ... and can be read document by document: it holds as soon as no document has a list where an EARLIER document has a mapping at the
+   same path, or a mapping where an earlier one has a list (what is compatible with two values is compatible with their update) *)
+Theorem C03_side_condition_document_by_document : forall ds d0, Forall pwf ds -> ForallOrdPairs lcompat (d0 :: ds) -> hcompat d0 ds.
+Proof. exact PrioLaws.hcompat_pairwise. Qed.
+Print Assumptions C03_side_condition_document_by_document.
 
 (* path by path, on the specification alone: the fold of upd_p holds at q the fold of what the stages hold at q *)
 Theorem C03_update_is_pointwise : forall ds d0 q, q <> [] -> sp d0 q -> Forall (fun d => sp d q /\ pwf d) ds ->
